@@ -126,7 +126,7 @@ class Scenario:
 
     def model_args(self):
         i = {"file": "path", "stdin": "stdin", "missing": "missing"}[self.in_kind]
-        o = {"inplace": "same", "out": "other", "dir": "other", "stdout": "stdout", "pretend": "none"}[self.route]
+        o = {"inplace": "same", "out": "other", "dir": "other", "stdout": "stdout", "pretend": "none", "implicit": "same"}[self.route]
         return i, o, "1" if self.preserve and self.route in ("inplace", "out", "dir") else "0", {"improvable": "improved", "optimal": "same", "invalid": "err"}[self.cls]
 
 
@@ -150,6 +150,11 @@ SCENARIOS = [
     Scenario("pretend-invalid", "file", "pretend", False, "invalid"),
     Scenario("stdin-stdout-improvable", "stdin", "stdout", False, "improvable"),
     Scenario("stdin-out-improvable", "stdin", "out", False, "improvable"),
+    Scenario("stdin-out-optimal", "stdin", "out", False, "optimal"),
+    Scenario("stdin-stdout-optimal", "stdin", "stdout", False, "optimal"),
+    Scenario("stdin-implicit-improvable", "stdin", "implicit", False, "improvable"),   # `oxipng -` : standard output is implied
+    Scenario("stdin-implicit-optimal", "stdin", "implicit", False, "optimal"),
+    Scenario("stdin-implicit-invalid", "stdin", "implicit", False, "invalid"),
     Scenario("stdin-out-invalid", "stdin", "out", False, "invalid"),
     Scenario("missing-out", "missing", "out", True, "improvable"),
 ]
@@ -182,8 +187,9 @@ class Sandbox:
         elif sc.route == "dir":
             self.outp = os.path.join(self.d, "sub", "in.png")
             argv += ["--dir", os.path.join(self.d, "sub")]
-        elif sc.route == "stdout":
-            argv += ["--stdout"]
+        elif sc.route in ("stdout", "implicit"):
+            if sc.route == "stdout":
+                argv += ["--stdout"]
             self.stdout_path = os.path.join(self.d, "stdout.bin")
         elif sc.route == "pretend":
             argv += ["--pretend"]
@@ -247,13 +253,21 @@ def run(rep):
         rep.corr_break("library call for the expected bytes", "opt", r1, "ok")
         return
     optimal = bytes.fromhex(r1[3:])
+    improved_out = optimal
+    # prefer an input that cannot be improved although its re-encoding is DIFFERENT bytes (writing "the original" is then observable)
+    od = e2e.optimal_differing(rng, impl, opts, want=1)
+    if od:
+        optimal = od[0]
+        rep.count("optimal-input:re-encoding-differs")
+    else:
+        rep.notes.append("no optimal input with a differing re-encoding was found; the already-optimal class uses an idempotent file")
     r2 = vlib.run_cases(impl, [f"a opt {opts} {optimal.hex()}"])["a"]
     optimal_out = bytes.fromhex(r2[3:]) if r2.startswith("ok ") else b""
-    if len(optimal) >= len(improvable) or len(optimal_out) < len(optimal):
+    if len(improved_out) >= len(improvable) or len(optimal_out) < len(optimal):
         rep.notes.append("input classes not as intended; regenerate")
     invalid = improvable[:40] + bytes([improvable[40] ^ 0x55]) + improvable[41:]   # CRC error in IDAT
     data_of = {"improvable": improvable, "optimal": optimal, "invalid": invalid}
-    want_of = {"improvable": optimal, "optimal": optimal, "invalid": None}
+    want_of = {"improvable": improved_out, "optimal": optimal, "invalid": None}
     base = tempfile.mkdtemp(prefix="oxiverif-c12-")
     idx = 0
     scen = SCENARIOS if not quick else SCENARIOS
@@ -308,7 +322,7 @@ def run(rep):
                             rep.violation("C12:preserve", f"{sc.name}: --preserve did not copy mode/mtime ({oct(g[1])} vs {oct(src[1])}, {g[2]} vs {src[2]})", desc)
                     if sc.route != "inplace" and sc.in_kind == "file" and aft.get("in.png") != sb.before["in.png"]:
                         rep.violation("C12:input-touched", f"{sc.name}: the input file changed although another destination was named", desc)
-            elif mresult == "ok" and sc.route == "stdout":
+            elif mresult == "ok" and sc.route in ("stdout", "implicit"):
                 g = aft.get("stdout.bin")
                 exp = data if sc.cls == "optimal" else want
                 if g is None or g[0] != exp:
